@@ -251,6 +251,12 @@ def stage_projects(res, pr, tier, seed):
         ([("main.jst", J + "INCLUDE a.jst\n"), ("a.jst", "INCLUDE b.jst\nJSIGHT 0.3\n"), ("b.jst", "TYPE @t\n{}\n")], "jsightininclude"),
         ([("main.jst", J + "INCLUDE d/a.jst\n"), ("d/a.jst", "TYPE @u\n{}\nINCLUDE b.jst\nINCLUDE b2.jst\nJSIGHT 0.3\n"), ("d/b.jst", ""), ("d/b2.jst", "INCLUDE c.jst\n"), ("d/c.jst", "")],
          "jsightininclude"),
+        # a file of that name exists - next to the MAIN file, in a sibling directory, one level up - but not next to the
+        # including file: it is missing, and nothing outside the including file's directory tree is looked at
+        ([("main.jst", J + "INCLUDE api/cats.jst\n"), ("api/cats.jst", "GET /cats\n  INCLUDE responses.jst\n"), ("responses.jst", "200 any\n")], "includenotexist"),
+        ([("main.jst", J + "INCLUDE api/cats.jst\n"), ("api/cats.jst", "GET /cats\n  INCLUDE responses.jst\n"), ("other/responses.jst", "200 any\n")], "includenotexist"),
+        ([("main.jst", J + "INCLUDE a/b/c.jst\n"), ("a/b/c.jst", "GET /cats\n  INCLUDE r.jst\n"), ("a/r.jst", "200 any\n"), ("r.jst", "200 any\n")], "includenotexist"),
+        ([("sub/main.jst", J + "GET /cats\n  INCLUDE r.jst\n"), ("r.jst", "200 any\n")], "includenotexist"),
         ([("main.jst", J + "INCLUDE\n")], "includenoparam"),
         ([("main.jst", J + "INCLUDE /etc/passwd\n")], "includebadname"),
         ([("main.jst", J + "INCLUDE ../x.jst\n")], "includebadname"),
@@ -336,7 +342,11 @@ def stage_projects(res, pr, tier, seed):
              ("GET /p%d\n", "  200\n    INCLUDE parts/f%d.jst\n", "Body\n  {\n    \"k%d\": %d\n  }\n"),
              ("URL /p%d\n  Protocol json-rpc-2.0\n  Method m\n", "    INCLUDE parts/f%d.jst\n", "Params\n  {\n    \"k%d\": %d\n  }\nResult\n  [%d]\n"),
              ("", "INCLUDE parts/f%d.jst\n", "TYPE @t%d\n  {\n    \"k\": %d\n  }\n"),
-             ("", "INCLUDE parts/f%d.jst\n", "ENUM @e%d\n  [%d]\n")]
+             ("", "INCLUDE parts/f%d.jst\n", "ENUM @e%d\n  [%d]\n"),
+             # descriptions at the same byte offsets of different files
+             ("GET /p%d\n", "  INCLUDE parts/f%d.jst\n", "Description\n  text of number %d\n200 any\n"),
+             ("TAG @t%d\n", "  INCLUDE parts/f%d.jst\n", "Description\n  about tag %d\n"),
+             ("URL /r%d\n  Protocol json-rpc-2.0\n  Method m\n", "    INCLUDE parts/f%d.jst\n", "Description\n  method %d\nParams\n  {}\n")]
     for head, incl, part in slots:
         for n in (2, 3):
             main, whole, files = J, J, []
@@ -376,7 +386,20 @@ def stage_projects(res, pr, tier, seed):
             spec_bad.append((pj, "the project gives %s when its directory was parsed before with other contents in the same process, and %s in a "
                                  "directory of its own: an included file is not read from the file system" % (sx, sy)))
             break
-    res.notes["project_stage"] = {"reused_directory_sequence": len(seq), "cut_sequences": len(projects), "files_per_project": nfiles, "rejection_cases": len(rej),
+    # ---- F: the main file opened under another spelling of its path (./main.jst, dir//main.jst): the same project
+    spelled = [p for p in twins if sum(1 for ln in p[0][1].split("\n") if ln.strip().startswith("INCLUDE")) >= 2][:12]
+    for sp in ("dot", "slashes", "dotdot"):
+        osp = C.run_sharded("harness", "fn", [P.run_line("out=json,spell=" + sp, p) for p in spelled])
+        res.count(len(spelled))
+        for pj, x in zip(spelled, osp):
+            sx, dx = P.parse(x)
+            sy, dy = P.parse(fresh[repr(pj)])
+            if sx != sy or (sx == "ok" and dx.get("json") != dy.get("json")):
+                spec_bad.append((pj, "the project gives %s when its main file is opened as %s and %s under the plain path" % (
+                    sx + (" " + C.unhx(dx.get("msg", "-")).decode("latin1")[:60] if sx == "err" else ""),
+                    {"dot": "<dir>/./main.jst", "slashes": "<dir>//main.jst", "dotdot": "<dir>/x/../main.jst"}[sp], sy)))
+                break
+    res.notes["project_stage"] = {"main_file_spellings": 3 * len(spelled), "reused_directory_sequence": len(seq), "cut_sequences": len(projects), "files_per_project": nfiles, "rejection_cases": len(rej),
                                   "fixture_cuts": len(cut_projects), "same_shape_include_families": len(twins)}
     res.sample({"project": [(n, c[:120]) for n, c in projects[len(projects) // 3]]})
     return corr_bad, spec_bad
